@@ -8,8 +8,8 @@ from core import enc, q, user_fn_spec
 
 SR_POOL = [1, 7, 100, 2.4, 1e3, 12345.678, 1e6, 1e9, 5e10, 30, 250.5]
 NAME_POOL = ["a", "b", "a1b", "x2y", "pulse", "pi2pulse", "x9y9z", "ramp", "wait", "ab", "pulse width", "waituntilgate", "Ramp"]
-USER_FNS = ["const", "lin2", "poly4", "pi2pulse", "x9y"]
-USER_ARITY = {"const": 1, "lin2": 2, "poly4": 4, "pi2pulse": 1, "x9y": 2}
+USER_FNS = ["const", "lin2", "poly4", "pi2pulse", "x9y", "istep", "icount"]
+USER_ARITY = {"const": 1, "lin2": 2, "poly4": 4, "pi2pulse": 1, "x9y": 2, "istep": 1, "icount": 1}
 BUILTIN_ARITY = {"ramp": 2, "sine": 4, "gaussian": 4, "gsc": 4}
 
 
